@@ -33,7 +33,10 @@ func (reg *ResourceRegistry) ScanStorage(root string) error {
 		if err != nil {
 			return err
 		}
-		if !strings.HasPrefix(root, reg.storageDir.Path) {
+		// The root must be the storage dir itself or located within it. A plain
+		// prefix check would also accept siblings like "<storage>-other".
+		storagePath := filepath.Clean(reg.storageDir.Path)
+		if root != storagePath && !strings.HasPrefix(root, storagePath+string(filepath.Separator)) {
 			return errors.New("supplied scan root path not within storage")
 		}
 	}
